@@ -14,6 +14,19 @@ for crate in sorted(os.listdir(os.path.join(V, "kani"))):
     e = dict(env, CARGO_TARGET_DIR=os.path.join(V, ".cache", "native-" + crate))
     r = subprocess.run(["cargo", "build", "--offline", "--bin", "replay"], cwd=d, env=e)
     ok = ok and r.returncode == 0
+# warm the Kani target directories the quick tiers use (one per parallel slot), so that a quick check does not pay
+# six cold dependency builds inside its time budget
+import concurrent.futures
+def warm(args):
+    crate, slot = args
+    d = os.path.join(V, "kani", crate)
+    t = os.path.join(V, ".cache", "kani-%s-%d" % (crate, slot))
+    with open(os.path.join(V, ".cache", "warm-%s-%d.log" % (crate, slot)), "w") as f:
+        return subprocess.run(["cargo", "kani", "-Z", "stubbing", "--only-codegen", "--target-dir", t], cwd=d, env=env, stdout=f, stderr=subprocess.STDOUT).returncode
+jobs = [(c, sl) for c in ("ser", "bq") for sl in range(6)]
+with concurrent.futures.ThreadPoolExecutor(6) as ex:
+    rcs = list(ex.map(warm, jobs))
+# (a failed warm-up is not fatal: the checks build what they need)
 e = dict(env, CARGO_TARGET_DIR=os.path.join(V, ".cache", "native-replay"))
 for prof in ([], ["--release"]):
     r = subprocess.run(["cargo", "build", "--offline"] + prof, cwd=os.path.join(V, "replay"), env=e)
